@@ -159,6 +159,10 @@ DELAYS = [0, 1, 5, 50, 200]
 
 def concretize(script, mat, rng, binary):
     steps = []
+    if rng.random() < 0.5:
+        steps.append({"t": "uci"})
+    if rng.random() < 0.2:
+        steps.append({"t": "register", "later": rng.random() < 0.5})
     cur = {"fen": START, "moves": [], "legal": None, "illegal": []}
     i = 0
     searched = False
@@ -303,6 +307,19 @@ def binary_session(app, cid, steps, selfplay=None, quit_during_search=False, wat
                 line = pr.get(20.0)
             if line == "readyok":
                 ev.append({"c": cid, "ev": "out", "raw": line})
+        elif t in ("uci", "register"):
+            later = t == "register" and st.get("later")
+            cmd = "uci" if t == "uci" else ("registerlater" if later else "register")
+            ev.append({"c": cid, "ev": "in", "cmd": cmd})
+            pr.send("uci" if t == "uci" else ("register later" if later else "register name a b code 1 2"))
+            want, last = (1, "uciok") if t == "uci" else ((0, "") if later else (2, "registration"))
+            while want > 0:
+                line = pr.get(20.0)
+                if line in ("<timeout>", None):
+                    break
+                ev.append({"c": cid, "ev": "out", "raw": line})
+                if line.split(" ")[0] == last:
+                    want -= 1
         elif t == "debug":
             ev.append({"c": cid, "ev": "in", "cmd": "debug"})
             pr.send("debug on" if st.get("on") else "debug off")
@@ -484,7 +501,9 @@ def run_check(prop, tier, replay, plan):
             outcome.add(case, note, matcher_for(prop))
         if len(samples) < 3 and evs:
             samples.append({"session_events": [({k: v for k, v in e.items() if k != "m"} if "m" not in e else {"ev": "out", "m": {k: e["m"][k] for k in ("kind", "pv", "best", "ponder", "score")}}) for e in evs[:12]]})
+    extra = sum(1 for _c, n in outcome.other if str(n.get("p", "")).startswith("X-"))
     cov = {"states": states, "transitions": trans, "traces_validated_against_impl": len(sessions) - len(bad_sessions),
+           "extra_rule_mismatches_beyond_listed_properties": extra,
            "model": mc, "sessions": len(sessions), "abort_schedules": nsched,
            "evaluations": answered, "distinct_nontrivial": len(nt), "rule": RULE, "samples": samples,
            "exhaustive": False,
